@@ -1418,6 +1418,11 @@ class Gen:
 					if hs:
 						return self.call_helper(env, r.choice(hs), 1)
 					a, b = r.randint(0, 4), r.randint(0, 4)
+					if r.random() < 0.5:
+						# a shift inside a non-final argument: `min(1 << k, 4)`
+						k2 = r.randint(0, 2)
+						sh = E('bin', 'int', [E('lit', 'int', val=1, lo=1, hi=1), E('lit', 'int', val=k2, lo=k2, hi=k2)], op='<<', lo=1 << k2, hi=1 << k2)
+						return E('call', 'int', [sh, E('lit', 'int', val=b, lo=b, hi=b)], val='min', lo=min(1 << k2, b), hi=min(1 << k2, b))
 					return E('call', 'int', [E('lit', 'int', val=a, lo=a, hi=a), E('lit', 'int', val=b, lo=b, hi=b)], val='max', lo=max(a, b), hi=max(a, b))
 				begin = small_call() if r.random() < 0.8 else self.lit_int(0, 3)
 				step = None
@@ -1425,11 +1430,9 @@ class Gen:
 					step = self.lit_int(1, 3)
 					if r.random() < 0.6:
 						n = small_call()   # a multi-argument call in the middle position
-				# a `<` (`<`, `<=`, `<<`) in a non-final argument is the known finding reject:range-angle-arg (probe programs only)
-				if '<' in pe(begin):
-					begin = self.lit_int(0, 3)
-				if step is not None and '<' in pe(n):
-					n = self.lit_int(0, 5)
+				# `<`, `<=`, `<<` in a non-final argument stay in (repaired ed1a7d7: the arguments come from the syntax tree, no text splitting)
+				if '<' in pe(begin) or (step is not None and '<' in pe(n)):
+					self.count('for:range-angle-arg')
 				sub.vars[i] = Var(i, 'int', min(begin.lo, 0), max(n.hi - 1, 0))
 				extra = (begin, step)
 				self.count('for:range-begin' + ('-step' if step is not None else ''))
@@ -1797,8 +1800,6 @@ PROBE_WHAT = {
 	'cxx:unmapped-method': 'list/str/dict methods without a C++ mapping are passed through under their Python or provisional (data/i18n.yml FIXME) name: '
 		'sort/reverse/index/remove, count/split/upper/lower/replace/strip/join, update — g++ rejects',
 	'ub:negative-index': '`xs[-1]` is emitted verbatim: out-of-bounds access in C++ (aborts under -D_GLIBCXX_ASSERTIONS)',
-	'reject:range-angle-arg': '`range(a << 1, n)` / `range(a < b, n)` / `range(lo, min(a << 1, 9), 2)`: a `<` in a non-final argument of a 2/3-argument range is taken for an opening '
-		'bracket when the rendered call text is split (BlockParser `<>` pair): Errors.Fatal <- ValueError "not enough values to unpack"',
 	'reject:block-scoped-name': 'a name first assigned inside a nested block (both if/else branches, a while/for body, the for variable) and read after the block '
 		'is valid Python (function-level scope) but is rejected: Errors.UnresolvedSymbol at the read, and Errors.Fatal <- RecursionError when the read is in `v = v + 1` '
 		'(the scope condition of C01.stmt_agree; the emitter never hoists a declaration)',
@@ -1857,13 +1858,6 @@ def probe_program(rng: random.Random, key: str | None = None) -> tuple[str, dict
 			ret = 'str'
 			args = {'upper': '', 'lower': '', 'replace': f"'{lit[:1]}', 'zz'", 'strip': f"'{lit[:1]}'"}[m]
 			body = f"\treturn s.{m}({args}) + '{lit}'\n"
-	elif key == 'reject:range-angle-arg':
-		sh = rng.randint(0, 2)
-		first = rng.choice([f'{a} << {sh}', f'min({a} << {sh}, 3)', f'abs({b}) << {sh}', f'int({a} < {b})'])
-		body = rng.choice([
-			f'\tt = 0\n\tfor i in range({first}, {rng.randint(2, 6)}):\n\t\tt += i + {e1}\n\treturn t\n',
-			f'\tt = 0\n\tfor i in range({rng.randint(0, 2)}, min({a} << {sh}, 6), {rng.randint(1, 2)}):\n\t\tt += i + {e1}\n\treturn t\n',
-		])
 	elif key == 'reject:block-scoped-name':
 		v = rng.choice(['v', 'w', 'acc'])
 		use = rng.choice([f'\treturn {v} + {e2}\n', f'\t{v} = {v} + {e2}\n\treturn {v}\n'])
